@@ -10,6 +10,12 @@
 #define _GNU_SOURCE 1
 #include "muduo/base/Date.h"
 #include "muduo/base/TimeZone.h"
+// The loaded zone table (`TimeZone::Data`: transitions, local time types, designations, footer) is defined in
+// TimeZone.cc only and no public function shows it.  To DUMP it, this translation unit compiles /repo's current
+// muduo/base/TimeZone.cc itself (the same source the library is built from; libmuduo.a's copy is then not linked: an
+// archive member is only pulled for a symbol that is still undefined) and reads `data_` through the friend that
+// TimeZone.h declares for tests (`TimeZoneTestPeer`).
+#include "muduo/base/TimeZone.cc"
 #include "muduo/base/Timestamp.h"
 #include "muduo/base/Logging.h"
 #include "muduo/net/InetAddress.h"
@@ -65,9 +71,56 @@ static bool slurp(const std::string& path, std::string* out) {
   return true;
 }
 
+namespace muduo {
+class TimeZoneTestPeer {
+ public:
+  static const TimeZone::Data* data(const TimeZone& tz) { return tz.data_.get(); }
+};
+}  // namespace muduo
+
+// what `loadZoneFile` printed to stderr (the text of the exception its handler caught), by kind:
+//   |<text>|    a std::logic_error thrown by the reader itself ("bad head", "no enough data", "bad int32_t data", ...)
+//   |length|    std::length_error of vector::reserve, |range| std::out_of_range of vector::at
+//   |rejected|  nothing was printed: readDataBlock returned false
+static std::string errKind(const std::string& text) {
+  std::string t = text;
+  while (!t.empty() && (t[t.size() - 1] == '\n' || t[t.size() - 1] == '\r')) t.erase(t.size() - 1);
+  if (t.empty()) return "rejected";
+  if (t.compare(0, 15, "vector::reserve") == 0) return "length";
+  if (t.compare(0, 22, "vector::_M_range_check") == 0) return "range";
+  return t;
+}
+
+// `zone ok` + the loaded table, or `zone invalid` + why
 static void loadZone(const char* path) {
+  fflush(stderr);
+  int saved = dup(2);
+  int cap = memfd_create("stderr", 0);
+  if (saved >= 0 && cap >= 0) dup2(cap, 2);
   g_zone.reset(new TimeZone(TimeZone::loadZoneFile(path)));
-  printf("%s\n--\n", g_zone->valid() ? "zone ok" : "zone invalid");
+  fflush(stderr);
+  std::string text;
+  if (saved >= 0 && cap >= 0) {
+    dup2(saved, 2);
+    char buf[512];
+    ssize_t n;
+    lseek(cap, 0, SEEK_SET);
+    while ((n = read(cap, buf, sizeof buf)) > 0) text.append(buf, static_cast<size_t>(n));
+  }
+  if (saved >= 0) close(saved);
+  if (cap >= 0) close(cap);
+  if (!g_zone->valid()) {
+    printf("zone invalid\nerr |%s|\n--\n", errKind(text).c_str());
+    return;
+  }
+  const TimeZone::Data* d = muduo::TimeZoneTestPeer::data(*g_zone);
+  printf("zone ok\ntab n %zu types %zu\n", d->transitions.size(), d->localtimes.size());
+  for (size_t i = 0; i < d->transitions.size(); ++i)
+    printf("tr %zu %lld %lld %d\n", i, static_cast<long long>(d->transitions[i].utctime),
+           static_cast<long long>(d->transitions[i].localtime), d->transitions[i].localtimeIdx);
+  for (size_t i = 0; i < d->localtimes.size(); ++i)
+    printf("lt %zu %d %d %d\n", i, d->localtimes[i].utcOffset, d->localtimes[i].isDst ? 1 : 0, d->localtimes[i].desigIdx);
+  printf("abbr |%s|\ntz |%s|\n--\n", toHex(d->abbreviation).c_str(), toHex(d->tzstring).c_str());
 }
 
 static DateTime mkdt(const std::vector<std::string>& w, size_t i) {
@@ -148,9 +201,9 @@ int main() {
       printf("< bytes %s\n", toHex(bytes).c_str());
       useTz(w[1].c_str());
       loadZone(w[1].c_str());
-    } else if (op == "zonebytes" && w.size() == 2) {
+    } else if (op == "zonebytes" && (w.size() == 2 || w.size() == 1)) {   // no hex word: the empty file
       std::string bytes;
-      if (!parseHex(w[1], &bytes)) { printf("bad-op\n--\n"); continue; }
+      if (w.size() == 2 && !parseHex(w[1], &bytes)) { printf("bad-op\n--\n"); continue; }
       int fd = memfd_create("zone", 0);
       if (fd < 0 || write(fd, bytes.data(), bytes.size()) != static_cast<ssize_t>(bytes.size())) { printf("zone unreadable\n--\n"); continue; }
       char path[64]; snprintf(path, sizeof path, "/proc/self/fd/%d", fd);
